@@ -62,10 +62,7 @@ func RunRace(c *Case, unit time.Duration) *RaceResult {
 	case EDefault:
 		cfg.Emitter = &nopStateEmitter{}
 	}
-	errs := make([]*jobErr, J)
-	for j := range errs {
-		errs[j] = &jobErr{j}
-	}
+	errs := newJobErrs(jobs)
 	body := func(j int) func(context.Context) error {
 		jb := jobs[j]
 		return func(ctx context.Context) error {
